@@ -61,7 +61,8 @@ class RadarSession:
         return ANSI_RE.sub("", t)
 
     def log_bytes_lines(self):
-        return re.findall(r"bytes: (.*)$", self.log_text(), flags=re.M)
+        # (the log shows the hex text as it came; digits are compared case-insensitively)
+        return [x.lower() if re.fullmatch(r"[0-9A-Fa-f]+", x) else x for x in re.findall(r"bytes: (.*)$", self.log_text(), flags=re.M)]
 
     def stderr(self):
         self.p.pump(0.0)
